@@ -19,7 +19,8 @@ const (
 	Str
 	List
 	Map
-	Time // a timestamp: a datetime literal in TOML, a string in the other three syntaxes
+	Time  // a timestamp: a datetime literal in TOML, a string in the other three syntaxes
+	Bytes // a Cue bytes literal (only re-abstracted Cue texts have one)
 )
 
 type KV struct {
@@ -48,6 +49,7 @@ func NU(u uint64) *Doc {
 }
 func NS(s string) *Doc  { return &Doc{Kind: Str, S: s} }
 func NT(s string) *Doc  { return &Doc{Kind: Time, S: s} }
+func NBy(s string) *Doc { return &Doc{Kind: Bytes, S: s} }
 func NL(l ...*Doc) *Doc { return &Doc{Kind: List, List: l} }
 func NM(kvs ...KV) *Doc { return &Doc{Kind: Map, KVs: kvs} }
 
@@ -69,6 +71,8 @@ func (d *Doc) Term() string {
 		return "(DStr " + coqfmt.Str(d.S) + ")"
 	case Time:
 		return "(DTime " + coqfmt.Str(d.S) + ")"
+	case Bytes:
+		return "(DBytes " + coqfmt.Str(d.S) + ")"
 	case List:
 		parts := make([]string, len(d.List))
 		for i, e := range d.List {
@@ -90,7 +94,7 @@ func Q(s string) string {
 }
 
 func IsScalar(d *Doc) bool {
-	return d.Kind == Bool || d.Kind == Int || d.Kind == Str || d.Kind == Time
+	return d.Kind == Bool || d.Kind == Int || d.Kind == Str || d.Kind == Time || d.Kind == Bytes
 }
 
 func sortedKeys(m map[string]*Doc) []string {
